@@ -9,12 +9,12 @@ import (
 )
 
 type FuncReport struct {
-	Key       string
-	Status    string // verified-attempted / out-of-reach / trusted
-	Reason    string
-	Obls      []*Obligation
-	Notes     []string
-	Tags      []string
+	Key    string
+	Status string // verified-attempted / out-of-reach / trusted
+	Reason string
+	Obls   []*Obligation
+	Notes  []string
+	Tags   []string
 }
 
 func newEngine(w *World) *Engine {
@@ -33,6 +33,7 @@ func (e *Engine) resetFor(fi *FuncInfo) {
 	e.idTerms = map[string]*Term{}
 	e.madeHere = map[string]bool{}
 	e.baseNames = map[string]Value{}
+	e.selfNames = map[string]Value{}
 	e.extraStreams = nil
 	e.callN = 0
 	e.nfresh = 0
@@ -67,6 +68,8 @@ func (e *Engine) verifyFunc(fi *FuncInfo) (rep *FuncReport) {
 			st.vars[obj] = v
 			e.baseNames[n.Name] = v
 			e.baseNames["self"] = v
+			e.selfNames[n.Name] = v
+			e.selfNames["self"] = v
 		}
 	}
 	// parameters
@@ -125,8 +128,9 @@ func (e *Engine) verifyFunc(fi *FuncInfo) (rep *FuncReport) {
 	for _, o := range finals {
 		done = append(done, e.runProcs(o)...)
 	}
-	for _, o := range done {
+	for i, o := range done {
 		e.checkExit(fi, o, sig)
+		e.obls = append(e.obls, &Obligation{Name: fmt.Sprintf("%s/cover/exit@%d", fi.Key, i+1), Func: fi.Key, Tags: rep.Tags, Hyps: append([]*Term(nil), o.st.pc...), Goal: tFalse, Kind: "cover", Where: c.Where})
 	}
 	rep.Status = "checked"
 	rep.Obls = e.obls
@@ -147,6 +151,9 @@ func (e *Engine) paramValue(name string, t types.Type, st *State) Value {
 			c0 := mkConst(name+".consumed0", SInt)
 			st.mem["consumed:"+id.String()] = c0
 			st.assume(mkAnd(mkCmp("<=", mkInt(0), c0), mkCmp("<=", c0, e.slen(id))))
+			if u.Dir() == types.RecvOnly {
+				st.mem["closed:"+id.String()] = tTrue // input histories are finite: the producer closes eventually
+			}
 		}
 		if u.Dir() != types.RecvOnly {
 			s0 := mkConst(name+".sent0", SInt)
@@ -228,7 +235,7 @@ func (e *Engine) checkExit(fi *FuncInfo, o Out, sig *types.Signature) {
 	pos := fi.Decl.Body.Lbrace + 1
 	env := e.specEnvAt(st, pos)
 	names := map[string]Value{}
-	for k, v := range env.names {
+	for k, v := range e.baseNames {
 		names[k] = v
 	}
 	if o.kind == fReturn {
@@ -256,13 +263,15 @@ func (e *Engine) checkExit(fi *FuncInfo, o Out, sig *types.Signature) {
 	}
 	env.names = names
 	// parameters keep their entry values in specs (Go parameters are mutable; contracts talk about entry values)
-	for j, cl := range c.byKind("ensures", "") {
-		label := fmt.Sprintf("ensures#%d", j)
-		if cl.Label != "" {
-			label = "ensures/" + cl.Label
+	for _, kind := range []string{"ensures", "guarantees"} {
+		for j, cl := range c.byKind(kind, "") {
+			label := fmt.Sprintf("%s#%d", kind, j)
+			if cl.Label != "" {
+				label = kind + "/" + cl.Label
+			}
+			t := term(e.evalSpec(cl.Expr, env))
+			e.assert(st, t, label, cl.Where, cl.Tags)
 		}
-		t := term(e.evalSpec(cl.Expr, env))
-		e.assert(st, t, label, cl.Where, cl.Tags)
 	}
 	// ownership: every stream whose read end this function holds must be handed over, returned or drained
 	returned := map[string]bool{}
